@@ -3,6 +3,7 @@ import NemoVerif.Models.SlideGraph
 import NemoVerif.Models.ErrContain
 import NemoVerif.Models.RoundMachine
 import NemoVerif.Models.ErrReport
+import NemoVerif.Models.ProcessEvents
 
 namespace NemoVerif.Drive.C10
 open Lean NemoVerif NemoVerif.Drive NemoVerif.SlideGraph NemoVerif.ErrContain NemoVerif.RoundMachine
@@ -227,6 +228,32 @@ def handle (op : String) (j : Json) : Except String Json := do
         ("raw_sq", .bool (ErrReport.validLit '\'' (ErrReport.render (fun _ => t) (fun _ => ['T']) tplR)))]
     pure (Json.mkObj [("texts", Json.arr (texts.map one).toArray),
       ("templates", Json.arr (tpls.map fun (d, segs) => Json.mkObj [("total", .bool (ErrReport.tplTotal d segs))]).toArray)])
+  | "convert" =>
+    -- the conversion step of process_events (Models/ProcessEvents.lean) on what ONE real process_events call showed: `raised` = the
+    -- exception classes (codes) that left run_to_completion, in order (every one is converted and delivered in a call of its own);
+    -- `classes` = the classes observed at run time (converted event, reference event of the observer's `match ColangError()`); the
+    -- tie extracted by the translator is `generatedTie`. Output: the model's run of the loop over an observer machine in which the
+    -- first `raised.length` deliveries raise — reactions of the observer, events delivered, and the class test on both class sources.
+    let raised ← (← (← j.getObjVal? "raised").getArr?).toList.mapM (·.getNat?)
+    let convCls ← (← j.getObjVal? "converted_class").getNat?
+    let refCls ← (← j.getObjVal? "ref_class").getNat?
+    let gt := ProcessEvents.generatedTie
+    let t : ProcessEvents.Tie := { gt with converted := convCls, matchRef := refCls }
+    -- one real input event with k escapes = k iterations of the loop that raise, then one that returns: model each escape as a
+    -- faulty input followed by its converted report (the report of escape i is accepted unless escape i+1 exists: then it is that
+    -- round which raised — process_events' loop is the same `convertLoop` with a longer chain)
+    let rec run (fuel : Nat) (es : List Nat) (s : ProcessEvents.ObsState) : ProcessEvents.ObsState :=
+      match fuel, es with
+      | 0, _ => s
+      | _, [] => s
+      | f + 1, e :: rest =>
+        match ProcessEvents.convertLoop t (ProcessEvents.obsRtc t (fun ev => if ev.isColangError then none else some e)) 2 s ⟨0, false, 0⟩ with
+        | some (s', _) => run f rest s'
+        | none => s
+    let s := run (raised.length + 1) raised ⟨0, 0⟩
+    pure (Json.mkObj [("reactions", Json.num (JsonNumber.fromNat s.reactions)), ("delivered", Json.num (JsonNumber.fromNat s.delivered)),
+      ("may_match_observed", .bool (t.headMayMatch convCls)), ("may_match_generated", .bool (gt.headMayMatch gt.converted)),
+      ("generated_converted", Json.num (JsonNumber.fromNat gt.converted)), ("generated_ref", Json.num (JsonNumber.fromNat gt.matchRef))])
   | _ => throw s!"unknown op C10.{op}"
 
 end NemoVerif.Drive.C10
